@@ -7,7 +7,8 @@ from common import show_list, parse_list
 LEVEL = "proof"
 LEAN_PROPS = ["FastTicc.Props.C10", "FastTicc.Props.FrontEnd"]
 LEAN_HELPERS = ["FastTicc.Proofs.Stack"]
-LEAN_TRANSLATED = {"FastTicc.Props.TrSplit": ["split_joint_labels"], "FastTicc.Props.TrPad": ["pad_missing_labels"]}
+LEAN_TRANSLATED = {"FastTicc.Props.TrSplit": ["split_joint_labels"], "FastTicc.Props.TrPad": ["pad_missing_labels"],
+                   "FastTicc.Props.TrStack": ["stack_training_data"]}
 RULE = ("random series with T in [W, W+40], W in [1,12], N in [1,6], 1..6 series; cells are random 64-bit patterns "
         "viewed as float64 (NaN payloads, inf, -0.0) compared as integers; C/Fortran order, float32/int inputs "
         "(value-exact widening); non-trivial = W>=2 and at least 2 stacked rows; distinct by content hash")
